@@ -102,18 +102,28 @@ func (c *Chain) cancelLine(pre, blk string, target common.Slot, k, total int, re
 // EngineStream (C18): scripted engine answering invalid/error at every call position, and no engine at all.
 func (c *Chain) EngineStream(n int) {
 	r := c.Rng.Fork()
-	var withPayload []HonestStep
+	var withPayload, zeroHash []HonestStep
 	for _, h := range c.Honest {
-		if !h.Rejected && h.Engine == "valid" && (h.Blk.Fork >= Capella || h.Blk.Payload.BlockHash != (common.Root{})) {
+		if !h.Rejected && h.Engine == "valid" && (h.Blk.Fork >= Capella || h.HasPayload) {
 			withPayload = append(withPayload, h)
+			if h.ZeroHashMerge {
+				zeroHash = append(zeroHash, h)
+			}
 		}
 	}
 	if len(withPayload) == 0 {
 		return
 	}
 	c.Rec.Comment(fmt.Sprintf("C18 stream: engine verdict sweeps on %d steps", n))
-	for i := 0; i < n; i++ {
-		hs := withPayload[r.Intn(len(withPayload))]
+	for i := 0; i < n+len(zeroHash); i++ {
+		var hs HonestStep
+		if i < len(zeroHash) {
+			// always: the merge-transition block whose payload has block_hash = 0
+			hs = zeroHash[i]
+			c.Stats.Inc("engine_sweeps_zero_hash_merge_block")
+		} else {
+			hs = withPayload[r.Intn(len(withPayload))]
+		}
 		raw, fk := c.Rec.StateRaw(hs.PreID)
 		pre, err := DecodeState(c.Spec, fk, raw)
 		if err != nil {
@@ -136,6 +146,9 @@ func (c *Chain) EngineStream(n int) {
 			res := RunTransition(c.Spec, pre, nil, sb, hs.Blk.Fork, true, v.mode, v.at, -1)
 			c.notePartial(&res)
 			tag := "kind=engine"
+			if hs.ZeroHashMerge {
+				tag += " payload=merge_block_zero_hash"
+			}
 			if v.mode == "none" {
 				tag += " variant=engine_missing"
 			}
